@@ -30,9 +30,13 @@ type isoCase struct {
 	Block  uint      `json:"block"`
 	Rounds int       `json:"rounds"`
 	K      int       `json:"k"` // concurrent pipelines
+	Ck     int       `json:"checksum,omitempty"` // 0 = 32 bits (default), 64, -1 = none
 }
 
 func (i isoCase) String() string {
+	if i.Ck != 0 {
+		return fmt.Sprintf("%s/%s|%s/%s|%d|%d|%d|%d|%d|ck%d", i.TA, i.EA, i.TB, i.EB, i.Jobs, i.Len, i.Block, i.Rounds, i.K, i.Ck)
+	}
 	return fmt.Sprintf("%s/%s|%s/%s|%d|%d|%d|%d|%d", i.TA, i.EA, i.TB, i.EB, i.Jobs, i.Len, i.Block, i.Rounds, i.K)
 }
 
@@ -51,8 +55,15 @@ func shapeFor(t string) string {
 }
 
 // pipeline: compress then decompress; returns stream and decoded bytes
-func pipeline(t, e string, blk, jobs uint, data []byte) ([]byte, []byte, error) {
-	p := Params{t, e, blk, jobs, 32, int64(len(data)), false, false}
+func pipeline(t, e string, blk, jobs uint, data []byte, ck int) ([]byte, []byte, error) {
+	cks := uint(32)
+	switch ck {
+	case 64:
+		cks = 64
+	case -1:
+		cks = 0
+	}
+	p := Params{t, e, blk, jobs, cks, int64(len(data)), false, false}
 	stream, where, err := compress(data, p)
 	if err != nil {
 		return nil, nil, fmt.Errorf("%s: %v", where, err)
@@ -74,7 +85,7 @@ func runIso(c isoCase) (*Fail, bool) {
 	alone := make([][]byte, len(specs))
 	for i, s := range specs {
 		datas[i] = shape(shapeFor(s.t), c.Len+i*13)
-		st, out, err := pipeline(s.t, s.e, c.Block, c.Jobs, datas[i])
+		st, out, err := pipeline(s.t, s.e, c.Block, c.Jobs, datas[i], c.Ck)
 		if err != nil || !bytes.Equal(out, datas[i]) {
 			return nil, false // C01's business
 		}
@@ -92,7 +103,7 @@ func runIso(c isoCase) (*Fail, bool) {
 						errs[i] = fmt.Sprintf("panic: %v", rec)
 					}
 				}()
-				st, out, err := pipeline(s.t, s.e, c.Block, c.Jobs, datas[i])
+				st, out, err := pipeline(s.t, s.e, c.Block, c.Jobs, datas[i], c.Ck)
 				switch {
 				case err != nil:
 					errs[i] = "error: " + err.Error()
@@ -125,6 +136,19 @@ func isoCatalogue(c *Ctx, race bool) []isoCase {
 	for _, e := range allEntropies[1:] {
 		codecs = append(codecs, cd{"NONE", e})
 	}
+	// checksum widths other than 32 bits: the hashers are shared by the tasks of one instance
+	ckCases := func() []isoCase {
+		var o []isoCase
+		for _, ck := range []int{64, -1} {
+			for _, j := range []uint{2, 3, 8} {
+				for _, k := range []cd{{"NONE", "NONE"}, {"LZ", "HUFFMAN"}} {
+					o = append(o, isoCase{TA: k.t, EA: k.e, TB: k.t, EB: k.e, Jobs: j, Len: int(j)*2048 + 700, Block: 1024, Rounds: 2, K: 1, Ck: ck})
+					o = append(o, isoCase{TA: k.t, EA: k.e, TB: "BWT", EB: "ANS0", Jobs: j, Len: int(j)*2048 + 700, Block: 1024, Rounds: 1, K: 2, Ck: ck})
+				}
+			}
+		}
+		return o
+	}
 	thorough := c != nil && c.Thorough()
 	n := 6000
 	if race {
@@ -153,7 +177,7 @@ func isoCatalogue(c *Ctx, race bool) []isoCase {
 				out = append(out, isoCase{TA: k.t, EA: k.e, TB: k.t, EB: k.e, Jobs: j, Len: int(j)*1024 + 700, Block: 1024, Rounds: 1, K: 1})
 			}
 		}
-		return out
+		return append(out, ckCases()...)
 	}
 	// every ordered pair (incl. a codec with itself) as K=2 concurrent pipelines
 	for _, a := range codecs {
@@ -179,7 +203,7 @@ func isoCatalogue(c *Ctx, race bool) []isoCase {
 	// > 4 MiB BWT block: parallel inverse inside one block
 	big := 4<<20 + 70000
 	out = append(out, isoCase{TA: "BWT", EA: "NONE", TB: "BWT", EB: "ANS0", Jobs: 4, Len: big, Block: 8 << 20, Rounds: 1, K: 2})
-	return out
+	return append(out, ckCases()...)
 }
 
 var raceHdr = regexp.MustCompile(`^(Read|Write|Previous read|Previous write) at 0x[0-9a-f]+ by `)
